@@ -91,6 +91,16 @@ def model_call(drv, op, case, **kw):
 def make_impl(case):
     pf = pfmod()
     cls = getattr(pf, case['cls'])
+    first = case.get('retune_from')
+    if first:
+        # the same waveform OBJECT, used once with other parameters and then re-tuned in place (the dataclasses are
+        # mutable): its time function and its reported harmonics must both follow (seeded change C08-5A, a cached
+        # time_function pinned to the first phase)
+        w = cls(first['period'], first['amplitude'], first['phase'], first['offset'])
+        import numpy as _np
+        f0 = w.time_function; f0(_np.array([0.0, 0.25 * first["period"]])); pf.fourier_series(w).amplitude(1)
+        w.period, w.amplitude, w.phase, w.offset = case['period'], case['amplitude'], case['phase'], case['offset']
+        return w, pf.fourier_series(w)
     w = cls(case['period'], case['amplitude'], case['phase'], case['offset'])
     return w, pf.fourier_series(w)
 
@@ -560,6 +570,17 @@ def run(ctx, out):
         out.nontrivial(('grid', case['wavetype'], case['amplitude'], case['offset'] == 0, bool(case['prelude'])))
         n_grid += 1
     out.extra['grid_cases'] = n_grid
+    # objects re-tuned in place (implementation-side oracle; the exact model has no objects)
+    rngr = ctx.rng('retune')
+    for wt in WAVETYPES:
+        for _ in range(3 if ctx.quick else 40):
+            if ctx.time_left() < 30: break
+            a, b = random_case(rngr, wt), random_case(rngr, wt)
+            keep = rngr.choice(['phase', 'period', 'all', 'amplitude'])
+            first = {k: (a[k] if keep in (k, 'all') else b[k]) for k in ('period', 'amplitude', 'phase', 'offset')}
+            case = dict(b, retune_from=first)
+            oracle_coefficients(ctx, out, case, [0, 1, 2, 3, -1, 5])
+            out.count('retuned:' + wt); out.nontrivial(('retuned', wt, keep))
     for i, case in enumerate(cases):
         if ctx.time_left() < 15:
             out.notes.append(f'stopped after {i} of {len(cases)} cases (budget)'); break
